@@ -263,6 +263,11 @@ class Spec:
             sp.instances.setdefault(sort.oname, set()).update(classes)
             sp.assumptions.append("values of sort %s are instances of %s" % (sort.oname, ", ".join(classes)))
 
+        def always_truthy(sort, why):
+            """Values of this opaque sort are plain objects without __bool__/__len__ (stated assumption)."""
+            S.ALWAYS_TRUTHY.add(sort.oname)
+            sp.assumptions.append("objects of sort %s are always truthy: %s" % (sort.oname, why))
+
         def exc_attr(name, fn):
             """The attribute `name` of a caught exception object reads as fn(ctx) (e.g. a ghost holding the last errno)."""
             sp.exc_attrs[name] = fn
@@ -289,6 +294,12 @@ class Spec:
 
             def call(*args):
                 args = [S.lift(a, s) for a, s in zip(args, sorts[:-1])]
+                def _fit(a, s):      # Optional[T] read as T
+                    if a.s == s:
+                        return a
+                    c_ = S.coerce(a, s)
+                    return a if c_ is None else c_
+                args = [_fit(a, s) for a, s in zip(args, sorts[:-1])]
                 return S.V(rs, f(*[a.t for a in args]))
             sp.funcs[name] = call
             return call
@@ -345,7 +356,7 @@ class Spec:
 
         ns = dict(cls=cls, ghost=ghost, assumed=assumed, verified=verified, target=target, loop=loop,
                   fold_sum=fold_sum, fold_all=fold_all, fold_cat=fold_cat, use_rev=use_rev, fold_unit=fold_unit, rev_hints=rev_hints, attr=attr, seq_lemma=seq_lemma, lemma=lemma,
-                  exceptions=exceptions, attr_sort=attr_sort, instance_of=instance_of, exc_attr=exc_attr, const=const, assume_note=assume_note,
+                  exceptions=exceptions, attr_sort=attr_sort, instance_of=instance_of, exc_attr=exc_attr, always_truthy=always_truthy, const=const, assume_note=assume_note,
                   undecided=undecided, pure=pure, ufunc=ufunc, forall=forall, exists=exists,
                   extra_check=extra_check, census=census, include=include, rx=re.compile, SPEC=sp)
         for k in ("INT BOOL STR BYTES NONE ANY Seq Tup Opt SetS MapS Opaque Enum Obj V If And Or Not Implies "
